@@ -30,8 +30,13 @@ impl SelectState {
         }
     }
 
+    /// called when a retransmitted request is received: only a retransmission that directly
+    /// follows the SELECT (or an earlier retransmission of it) keeps the select adjacent to the
+    /// OPERATE that may come next
     pub(crate) fn update_frame_id(&mut self, new_frame_id: u32) {
-        self.frame_id = new_frame_id;
+        if self.frame_id.wrapping_add(1) == new_frame_id {
+            self.frame_id = new_frame_id;
+        }
     }
 
     pub(crate) fn match_operate(
